@@ -961,7 +961,7 @@ theorem any_access_path (ops : List Op) (op : Op) (q : Path) (hlen : ops.length 
         exact ⟨⟨hreg, hwf⟩, relsExpr_iff.mpr ⟨(relsExpr_iff.mp hx).1, fun _ => hv⟩⟩
       · simp only [Op.withPath, exec]
         rw [opNewEntity_rel_path_indep run q p H.tinv H.unlocked H.noObs hnd
-          (fun c hc => by rw [← H.zlen]; exact hreg c hc) (fun r hr => (hwf.2.1 r hr).1)
+          (fun c hc => by rw [← H.zlen]; exact hreg c hc) hwf.1 (fun r hr => (hwf.2.1 r hr).1)
           (fun r hr => by rw [← H.rget]; exact (hwf.2.1 r hr).2)
           (fun c hc hr => hwf.2.2 c hc (by rw [H.rget]; exact hr)) (H.targets_alive hv)]
     | add p e ids vals rels =>
@@ -987,7 +987,7 @@ theorem any_access_path (ops : List Op) (op : Op) (q : Path) (hlen : ops.length 
             | true =>
               exact absurd ((H.comps_iff hm c).mp
                 ((H.tinv.mask_iff_comps h2 hnf ha ok.comps c).mp hgc)) (hall c hc).2)
-          (fun r hr => (hwf.2.1 r hr).1)
+          hwf.1 (fun r hr => (hwf.2.1 r hr).1)
           (fun r hr => by rw [← H.rget]; exact (hwf.2.1 r hr).2)
           (fun c hc hr => hwf.2.2 c hc (by rw [H.rget]; exact hr)) (H.targets_alive hv)]
     | rem p e ids =>
